@@ -42,6 +42,7 @@ type VerifTransport struct {
 	WSegs     int
 	MaxWSegs  int
 	Hold      bool
+	SplitLimit int // with Concrete: a segment is at most this long unless it delivers everything that fits (0: no limit)
 	Concrete  bool // segment sizes are case-split into constants (long histories, DESIGN §2.13 regime B)
 	EOFErr    error // what a read at end of stream returns (nil: io.EOF)
 	WriteErr  error // if non-nil, writes fail with it (after accepting nothing)
@@ -92,6 +93,13 @@ func (t *VerifTransport) Read(b []byte) (int, error) {
 		vf.Assume(n == m)
 	}
 	if t.Concrete {
+		if t.SplitLimit > 0 {
+			m := rem
+			if m > len(b) {
+				m = len(b)
+			}
+			vf.Assume(vf.Any(n <= t.SplitLimit, n == m))
+		}
 		n = vf.Concretize(n, 64)
 	}
 	copy(b[:n], t.In[t.InOff:t.InOff+n])
@@ -146,6 +154,9 @@ func (t *VerifTransport) Write(b []byte) (int, error) {
 		vf.Assume(n == len(b))
 	}
 	if t.Concrete {
+		if t.SplitLimit > 0 {
+			vf.Assume(vf.Any(n <= t.SplitLimit, n == len(b)))
+		}
 		n = vf.Concretize(n, 64)
 	}
 	t.Out = append(t.Out, b[:n]...)
